@@ -84,14 +84,14 @@ CLAIMED = {
         note="A failed (null) request counts as an operation; equal-size realloc accepted in either bucket with 0 bytes.",
         ref="5 (C10)"),
     "C11": dict(
-        technique="runtime monitoring of the real conversion functions against an exact big-integer reference + metamorphic relations; real measure_precision under stepped virtual clocks; Miri",
+        technique="runtime monitoring of the real conversion functions against an exact big-integer reference + metamorphic relations; real measure_precision under stepped (incl. very coarse) virtual clocks; end-to-end slice: recorded samples of real sample loops on virtual counters of many frequencies vs. the logged windows; Miri",
         text="Hundreds of thousands (quick) to tens of millions (thorough) of boundary-dense and random (a, b, f) triples agree with floor((b-a)*10^12/f) (0 for b<a), are "
              "monotone, additive up to 1 ps and translation invariant; Durations up to u64::MAX seconds convert to nanos*1000; the real measure_precision returns the step "
-             "of every uniform virtual clock tried.",
+             "of every uniform virtual clock tried; both layers of duration_since (raw counter difference and the tagged Timestamp wrapper) agree; recorded samples of real loops equal floor(ticks*10^12/f) of their logged window for frequencies from 1 Hz to 2^64-1.",
         note="Precision clause in the regime 1 <= read cost <= step; the OS timer cannot be scripted.",
         ref="5 (C11)"),
     "C18": dict(
-        technique="runtime monitoring of the real formatters against an exact integer model (durations) and an exact-rational truncation oracle (throughput, bytes, plain numbers); Miri",
+        technique="runtime monitoring of the real formatters against an exact integer model (durations) and an exact-rational truncation oracle (throughput, bytes, plain numbers); end-to-end slice: byte / throughput cells of real bench runs judged with the byte format configured through CLI, environment or builder; Miri",
         text="Every explored duration string equals the truthful truncation computed in exact integers; every throughput/byte/number string parses back to a value with the right "
              "prefix that is <= the exact rational and less than one unit of the last allowed place below it, without trailing zeros or exponent; 0 and inf cases; no panic.",
         note="Float path compared with 1e-11 relative tolerance; only default (table) formatting is judged.",
